@@ -314,6 +314,14 @@ Proof.
   solve_no_nl.
 Qed.
 
+Lemma read_line_term2 id desc mid rest : no_nl desc ->
+  read_line (((term_text id desc ++ [10]) ++ mid) ++ rest) = Ok (term_text id desc, mid ++ rest).
+Proof. intros H. rewrite <- app_assoc. apply read_line_term. exact H. Qed.
+
+Lemma read_line_inner2 id v t e mid rest :
+  read_line (((inner_text id v t e ++ [10]) ++ mid) ++ rest) = Ok (inner_text id v t e, mid ++ rest).
+Proof. rewrite <- app_assoc. apply read_line_inner. Qed.
+
 (** ** one line *)
 
 Definition token (tok : list byte) : Prop := tok <> [] /\ Forall (fun b => is_sp b = false) tok.
@@ -573,8 +581,8 @@ Proof.
   - destruct (nth_error descs i) as [d|] eqn:Hd; [|apply nth_error_None in Hd; lia].
     destruct (Forall2_nth_error _ _ _ _ _ Hok Hd) as (e & He & Htok & Hnl & Hp).
     rewrite (skipn_nth descs i d Hd). cbn [map export_ascii_from import_ascii_loop].
-    rewrite export_ascii_line_term, <- app_assoc.
-    rewrite app_assoc, read_line_term by assumption. cbn [bind].
+    rewrite export_ascii_line_term.
+    rewrite read_line_term2 by assumption. cbn [bind].
     rewrite (import_ascii_line_term k slm _ _ d e) by (try assumption; lia). cbn [bind st_store st_nodes].
     rewrite <- (firstn_snoc tedges i e He).
     replace (N.of_nat i + 1 + 1) with (N.of_nat (S i) + 1) by lia.
@@ -596,8 +604,8 @@ Proof.
   - assert (j = length l) by lia. subst j. rewrite skipn_all. reflexivity.
   - destruct (nth_error l j) as [nd|] eqn:Hn; [|apply nth_error_None in Hn; lia].
     rewrite (skipn_nth l j nd Hn). cbn [map export_ascii_from import_ascii_loop].
-    unfold ainner at 1. rewrite export_ascii_line_inner, <- app_assoc.
-    rewrite app_assoc, read_line_inner. cbn [bind].
+    unfold ainner at 1. rewrite export_ascii_line_inner.
+    rewrite read_line_inner2. cbn [bind].
     rewrite (import_ascii_line_inner k slm tedges Hterm Hi Hf l j nd Hwf Hn) by lia. cbn [bind].
     replace (N.of_nat (length tedges) + 1 + N.of_nat j + 1)
       with (N.of_nat (length tedges) + 1 + N.of_nat (S j)) by lia.
@@ -633,3 +641,64 @@ Proof.
   unfold astate at 1 in H2. cbn [firstn map] in H2. unfold anodes_upto in H2. cbn [seq map] in H2.
   rewrite app_nil_r in H2. exact H2.
 Qed.
+
+(** ** the hypotheses are satisfiable: the BDD of x0 ∧ x1 (terminals F = 1, T = 2) *)
+
+Definition ex_descs : list (list byte) := [[70]; [84]].                       (* "F", "T" *)
+Definition ex_tedges : list cedge := [mkE (RTerm (TNum 0)) false; mkE (RTerm (TNum 1)) false].
+Definition ex_adag : list ainode := [mkA 1 2 1; mkA 0 3 1].
+
+Example ex_terms_ok : terms_ok KBDD ex_descs ex_tedges.
+Proof.
+  repeat constructor; try discriminate.
+Qed.
+
+Example ex_adag_wf : awf_dag KBDD [0; 1] ex_tedges ex_adag.
+Proof.
+  split.
+  - cbn. repeat constructor; cbn; intuition discriminate.
+  - intros j nd H. destruct j as [|[|j]]; cbn in H; inversion H; subst; clear H.
+    + unfold awf_at, achild_ok. cbn. repeat split; try lia; try discriminate.
+    + unfold awf_at, achild_ok. cbn. repeat split; try lia; try discriminate.
+      intros _. exists (mkA 1 2 1). split; [reflexivity|cbn; lia].
+    + destruct j; discriminate.
+Qed.
+
+Example ex_adag_text :
+  export_ascii_nodes (map ATerm ex_descs ++ map ainner ex_adag)
+  = bs "1 F 0 0
+2 T 0 0
+3 1 2 1
+4 0 3 1
+".
+Proof. vm_compute. reflexivity. Qed.
+
+Example ex_adag_roundtrip :
+  import_ascii KBDD true [0; 1] 4 (export_ascii_nodes (map ATerm ex_descs ++ map ainner ex_adag) ++ trailer)
+  = Ok (astate [0; 1] ex_tedges ex_adag 2, trailer).
+Proof. vm_compute. reflexivity. Qed.
+
+(** a ZBDD and an MTBDD with negative numbers and infinities, by computation *)
+Example ex_zbdd_roundtrip :
+  let descs := [[69]; [66]] in                                               (* "E", "B" *)
+  let tedges := [mkE (RTerm (TNum 0)) false; mkE (RTerm (TNum 1)) false] in
+  let l := [mkA 1 2 2; mkA 0 3 1] in
+  import_ascii KZBDD true [0; 1] 4 (export_ascii_nodes (map ATerm descs ++ map ainner l) ++ trailer)
+  = Ok (astate [0; 1] tedges l 2, trailer).
+Proof. vm_compute. reflexivity. Qed.
+
+Example ex_mtbdd_roundtrip :
+  let descs := [bs "-3"; bs "+Inf"; bs "NaN"] in
+  let tedges := [mkE (RTerm (TNum (-3))) false; mkE (RTerm TPlusInf) false; mkE (RTerm TNaN) false] in
+  let l := [mkA 2 1 2; mkA 0 4 3] in
+  import_ascii KMTBDD true [3; 5; 6] 5 (export_ascii_nodes (map ATerm descs ++ map ainner l) ++ trailer)
+  = Ok (astate [3; 5; 6] tedges l 2, trailer).
+Proof. vm_compute. reflexivity. Qed.
+
+Example ex_bcdd_ascii_roundtrip :
+  let descs := [[84]] in
+  let tedges := [mkE (RTerm (TNum 1)) false] in
+  let l := [mkA 1 1 (-1); mkA 0 2 (-2)] in
+  import_ascii KBCDD true [0; 1] 3 (export_ascii_nodes (map ATerm descs ++ map ainner l) ++ trailer)
+  = Ok (astate [0; 1] tedges l 2, trailer).
+Proof. vm_compute. reflexivity. Qed.
